@@ -199,3 +199,118 @@ End WithRegex.
 (* the dispatch covers every mask: its last entry is unconditional *)
 Theorem dispatch_total : exists name, last dispatch (MTrue, "") = (MTrue, name).
 Proof. eexists. reflexivity. Qed.
+
+(* ====================================================================================== *)
+(* anchored_hostname_end (Generated.AnchorGen)                                             *)
+(* ====================================================================================== *)
+From Adb Require Import BaseProofs C02_Proofs.
+From Coq Require Import ZifyBool ZifyNat ZifyN.
+Import AnchorGen.
+
+(* an atom of the label tests; indexing `hostname.as_bytes()[k]` outside the hostname (or at
+   `match_index - 1` with match_index = 0) panics in Rust: the evaluation is stuck (None) *)
+Definition hatom_val (fh host : str) (w e : bool) (mi me : nat) (a : hatom) : option bool :=
+  match a with
+  | H_at_start => Some (Nat.eqb mi 0)
+  | H_filter_starts_dot => Some (head_is DOT fh)
+  | H_prev_is_dot =>
+      if Nat.eqb mi 0 then None
+      else if Nat.ltb (mi - 1) (length host) then Some (N.eqb (nthb host (mi - 1)) DOT) else None
+  | H_at_end => Some (Nat.eqb me (length host))
+  | H_must_end => Some e
+  | H_wildcard => Some w
+  | H_filter_ends_dot => Some (last_is DOT fh)
+  | H_next_is_dot => if Nat.ltb me (length host) then Some (N.eqb (nthb host me) DOT) else None
+  end.
+(* `||` and `&&` evaluate their right operand only when needed *)
+Fixpoint hval (fh host : str) (w e : bool) (mi me : nat) (f : hform) : option bool :=
+  match f with
+  | HAtom a => hatom_val fh host w e mi me a
+  | HNot g => match hval fh host w e mi me g with Some b => Some (negb b) | None => None end
+  | HAnd a b => match hval fh host w e mi me a with
+                | Some true => hval fh host w e mi me b
+                | Some false => Some false
+                | None => None
+                end
+  | HOr a b => match hval fh host w e mi me a with
+               | Some true => Some true
+               | Some false => hval fh host w e mi me b
+               | None => None
+               end
+  end.
+
+Fixpoint interp_ahe_loop (fuel : nat) (fh host : str) (w e : bool) (search_from : nat)
+  : option (option nat) :=
+  match fuel with
+  | O => Some None
+  | S fuel' =>
+      if Nat.leb (search_from + length fh) (length host) then
+        match find_sub fh (drop search_from host) with
+        | None => if not_found_is_none then Some None else None
+        | Some j =>
+            let mi := (search_from + j)%nat in
+            let me := (mi + length fh)%nat in
+            match hval fh host w e mi me starts_label, hval fh host w e mi me ends_label with
+            | Some s, Some t =>
+                if s && t then Some (Some me)
+                else interp_ahe_loop fuel' fh host w e (mi + N.to_nat search_step)
+            | _, _ => None
+            end
+        end
+      else Some None
+  end.
+
+Definition interp_ahe (fh host : str) (w e : bool) : option (option nat) :=
+  if Nat.eqb (length fh) 0 then Some (Some (N.to_nat empty_filter_hostname_answer))
+  else if Nat.ltb (length host) (length fh) then (if longer_than_hostname_is_none then Some None else None)
+  else interp_ahe_loop (S (length host)) fh host w e (N.to_nat search_start).
+
+Lemma interp_ahe_loop_is_model fh host w e : forall fuel sf,
+  interp_ahe_loop fuel fh host w e sf = Some (ahe_loop fuel fh host w e sf).
+Proof.
+  induction fuel as [|fuel IH]; intros sf; [reflexivity|].
+  cbn [interp_ahe_loop ahe_loop].
+  destruct (Nat.leb (sf + length fh) (length host)) eqn:Hle; [|reflexivity].
+  apply Nat.leb_le in Hle.
+  destruct (find_sub fh (drop sf host)) as [j|] eqn:F; [|reflexivity].
+  destruct (find_sub_split _ _ _ F) as (pre & post & Hs & Hpre).
+  assert (Hlen : (j + length fh <= length host - sf)%nat).
+  { rewrite <- (drop_length sf host), Hs, !app_length. lia. }
+  set (mi := (sf + j)%nat). set (me := (mi + length fh)%nat).
+  assert (Hme : (me <= length host)%nat) by (unfold me, mi; lia).
+  assert (Es : hval fh host w e mi me starts_label =
+               Some (Nat.eqb mi 0 || head_is DOT fh || N.eqb (nthb host (mi - 1)) DOT)).
+  { unfold starts_label. cbn [hval hatom_val].
+    destruct (Nat.eqb mi 0) eqn:E0; [reflexivity|]. cbn [orb].
+    destruct (head_is DOT fh); [reflexivity|]. cbn [orb].
+    apply Nat.eqb_neq in E0.
+    replace (Nat.ltb (mi - 1) (length host)) with true by (symmetry; apply Nat.ltb_lt; lia).
+    destruct (N.eqb (nthb host (mi - 1)) DOT); reflexivity. }
+  assert (Ee : hval fh host w e mi me ends_label =
+               Some (Nat.eqb me (length host)
+                     || (negb e && (w || last_is DOT fh || N.eqb (nthb host me) DOT)))).
+  { unfold ends_label. cbn [hval hatom_val].
+    destruct (Nat.eqb me (length host)) eqn:E0; [reflexivity|]. cbn [orb].
+    destruct e; [reflexivity|]. cbn [negb andb].
+    destruct w; [reflexivity|]. cbn [orb].
+    destruct (last_is DOT fh); [reflexivity|]. cbn [orb].
+    apply Nat.eqb_neq in E0.
+    replace (Nat.ltb me (length host)) with true by (symmetry; apply Nat.ltb_lt; lia).
+    destruct (N.eqb (nthb host me) DOT); reflexivity. }
+  rewrite Es, Ee.
+  match goal with |- (if ?c then _ else _) = _ => destruct c end; [reflexivity|].
+  unfold search_step. change (N.to_nat 1) with 1%nat. rewrite Nat.add_1_r. apply IH.
+Qed.
+
+Theorem interp_ahe_is_model fh host w e :
+  interp_ahe fh host w e = Some (anchored_hostname_end fh host w e).
+Proof.
+  unfold interp_ahe, anchored_hostname_end.
+  destruct (Nat.eqb (length fh) 0); [reflexivity|].
+  destruct (Nat.ltb (length host) (length fh)); [reflexivity|].
+  apply interp_ahe_loop_is_model.
+Qed.
+
+(* no index of the label tests is ever out of range *)
+Corollary interp_ahe_never_stuck fh host w e : interp_ahe fh host w e <> None.
+Proof. rewrite interp_ahe_is_model. discriminate. Qed.
